@@ -18,6 +18,8 @@ from concurrent.futures import ThreadPoolExecutor
 VERIF = os.path.dirname(os.path.dirname(os.path.abspath(__file__)))
 SPEC = os.path.join(VERIF, "spec")
 REPO = os.environ.get("VERIF_REPO", "/repo")
+# where evidence/ and replays/ are written (only the seed-regression tool overrides it, to run several trees in parallel)
+OUT = os.environ.get("VERIF_OUT", VERIF)
 TLA_JAR = "/opt/veriftools/tla/tla2tools.jar:/opt/veriftools/tla/CommunityModules-deps.jar"
 NCPU = os.cpu_count() or 4
 
@@ -273,7 +275,7 @@ class Ctx:
         self.t0 = time.time()
         self.scratch = tempfile.mkdtemp(prefix=f"verif_{prop}_")
         if replay is None:
-            shutil.rmtree(os.path.join(VERIF, "replays", prop), ignore_errors=True)
+            shutil.rmtree(os.path.join(OUT, "replays", prop), ignore_errors=True)
         self.states = 0
         self.transitions = 0
         self.evaluations = 0
@@ -380,8 +382,12 @@ class Ctx:
             "wall_s": round(wall, 2),
             "violations": len(real),
         }
-        os.makedirs(os.path.join(VERIF, "evidence"), exist_ok=True)
-        with open(os.path.join(VERIF, "evidence", f"{self.prop}.json"), "w") as f:
+        # X.. = growth of the specification beyond the listed properties: own evidence directory, and a deviation is
+        # never printed as a VIOLATION of a property
+        ext = self.prop.startswith("X")
+        evdir = os.path.join(OUT, "evidence_ext" if ext else "evidence")
+        os.makedirs(evdir, exist_ok=True)
+        with open(os.path.join(evdir, f"{self.prop}.json"), "w") as f:
             json.dump(ev, f, indent=1, default=str)
             f.write("\n")
         for kid, (k, n) in self.known_hits.items():
@@ -389,7 +395,7 @@ class Ctx:
         rc = 0
         if real:
             rc = 1
-            os.makedirs(os.path.join(VERIF, "replays", self.prop), exist_ok=True)
+            os.makedirs(os.path.join(OUT, "replays", self.prop), exist_ok=True)
             seen = set()
             for clause, case in real:
                 # one replay file per distinct failing clause (the first case that showed it)
@@ -399,10 +405,11 @@ class Ctx:
                 if key in seen:
                     continue
                 seen.add(key)
-                path = os.path.join(VERIF, "replays", self.prop, f"{h}.json")
+                path = os.path.join(OUT, "replays", self.prop, f"{h}.json")
                 with open(path, "w") as f:
                     f.write(blob + "\n")
-                print(f"VIOLATION property={self.prop} replay={path}  clause={clause} ({sum(1 for c,_ in real if c==clause)} case(s))")
+                head = f"EXT-DEVIATION ext={self.prop}" if ext else f"VIOLATION property={self.prop}"
+                print(f"{head} replay={path}  clause={clause} ({sum(1 for c,_ in real if c==clause)} case(s))")
         print(
             f"[{self.prop}] tier={self.tier} seed={self.seed} states={self.states} "
             f"impl_cases_validated={self.validated} nontrivial={len(self.nontrivial)} "
